@@ -6,6 +6,8 @@ import (
 	"math"
 	"reflect"
 	"strings"
+	"sync"
+	"sync/atomic"
 	"unicode/utf16"
 	"unicode/utf8"
 
@@ -21,21 +23,35 @@ import (
 // saves CPU and memory.
 // Currently, importedString is created in 2 cases: Runtime.ToValue() for strings longer than 16 bytes and as a result
 // of JSON.stringify() if it may contain unicode characters. More cases could be added in the future.
+// Like all primitive values, instances may be shared between runtimes (goroutines), therefore the lazy scan
+// is synchronised: 'u' may only be read after isScanned() returned true or ensureScanned() has returned.
 type importedString struct {
 	s string
 	u unicodeString
 
-	scanned bool
+	scanOnce sync.Once
+	scanned  atomic.Bool
+}
+
+func newScannedImportedString(s string, u unicodeString) *importedString {
+	i := &importedString{s: s, u: u}
+	i.scanOnce.Do(func() {})
+	i.scanned.Store(true)
+	return i
 }
 
 func (i *importedString) scan() {
 	i.u = unistring.Scan(i.s)
-	i.scanned = true
+	i.scanned.Store(true)
+}
+
+func (i *importedString) isScanned() bool {
+	return i.scanned.Load()
 }
 
 func (i *importedString) ensureScanned() {
-	if !i.scanned {
-		i.scan()
+	if !i.scanned.Load() {
+		i.scanOnce.Do(i.scan)
 	}
 }
 
@@ -165,9 +181,9 @@ func (i *importedString) Length() int {
 }
 
 func (i *importedString) Concat(v String) String {
-	if !i.scanned {
+	if !i.isScanned() {
 		if v, ok := v.(*importedString); ok {
-			if !v.scanned {
+			if !v.isScanned() {
 				return &importedString{s: i.s + v.s}
 			}
 		}
@@ -196,7 +212,7 @@ func (i *importedString) CompareTo(v String) int {
 }
 
 func (i *importedString) Reader() io.RuneReader {
-	if i.scanned {
+	if i.isScanned() {
 		if i.u != nil {
 			return i.u.Reader()
 		}
@@ -242,7 +258,7 @@ func (s *stringUtf16Reader) ReadRune() (r rune, size int, err error) {
 }
 
 func (i *importedString) utf16Reader() utf16Reader {
-	if i.scanned {
+	if i.isScanned() {
 		if i.u != nil {
 			return i.u.utf16Reader()
 		}
@@ -254,7 +270,7 @@ func (i *importedString) utf16Reader() utf16Reader {
 }
 
 func (i *importedString) utf16RuneReader() io.RuneReader {
-	if i.scanned {
+	if i.isScanned() {
 		if i.u != nil {
 			return i.u.utf16RuneReader()
 		}
